@@ -1158,8 +1158,24 @@ package sio
 //@   guarded_by (numAttemptsMu) numAttempts
 
 // C16: functions that run user handlers synchronously (callers must not hold a lock across them).
+// C01: the handler gets one prepared value per parameter; a variadic handler must be entered through CallSlice.
 //@ func (*eventHandler).call
 //@   callback
+//@   opt safety off
+//@   ghost asked bool = false
+//@   ghost isvar bool = false
+//@   ghost invoked int = 0
+//@   callsite IsVariadic
+//@     updateafter asked = true
+//@     updateafter isvar = result
+//@   callsite Call skip maypanic
+//@     requires asked && !isvar && arg0 == args [C01.handler.call]
+//@     update invoked = invoked + 1
+//@   callsite CallSlice skip maypanic
+//@     requires asked && isvar && arg0 == args [C01.handler.variadic.through.callslice]
+//@     update invoked = invoked + 1
+//@   ensures invoked == 1 [C01.handler.invoked.once]
+//@   ensures panicked() ==> err != nil [C01.handler.panic.reported]
 
 // ---------------------------------------------------------------------------------------------
 // C04. A broadcast issued through a socket never reaches that socket: every operator a socket hands out is the
